@@ -258,14 +258,42 @@ func extractC12Handler(o *out) {
 	fmt.Fprintf(b, "def c12HandlerErrReturns : Bool := %v\n", w.errReturns == 1)
 	// is the handler what is registered with miekg/dns?
 	reg := false
+	regOn := "" // what HandleFunc is called on: "dns" = the library's process-wide default table, otherwise a variable
+	ownMux, assigned, beforeServe := false, false, false
 	if nf := findFunc(f, "", "NewNetConnectionServerCommunicator"); nf != nil && nf.Body != nil {
+		served := false
 		ast.Inspect(nf.Body, func(x ast.Node) bool {
-			if c, ok := x.(*ast.CallExpr); ok && exprString(c.Fun) == "dns.HandleFunc" && len(c.Args) == 2 && exprString(c.Args[1]) == "c.handleRequest" {
-				reg = true
+			switch c := x.(type) {
+			case *ast.CallExpr:
+				fn := exprString(c.Fun)
+				if strings.HasSuffix(fn, ".HandleFunc") && len(c.Args) == 2 && exprString(c.Args[1]) == "c.handleRequest" {
+					reg = true
+					regOn = strings.TrimSuffix(fn, ".HandleFunc")
+				}
+				if strings.HasSuffix(fn, ".ListenAndServe") || strings.HasSuffix(fn, ".ActivateAndServe") {
+					served = true
+				}
+			case *ast.AssignStmt:
+				for i, l := range c.Lhs {
+					if exprString(l) == "server.Handler" && i < len(c.Rhs) {
+						assigned = true
+						beforeServe = !served
+						if regOn != "" && regOn != "dns" && exprString(c.Rhs[i]) == regOn {
+							ownMux = true
+						}
+					}
+					if i < len(c.Rhs) {
+						if call, ok := c.Rhs[i].(*ast.CallExpr); ok && exprString(call.Fun) == "dns.NewServeMux" {
+							_ = l
+						}
+					}
+				}
 			}
 			return true
 		})
 	}
-	fmt.Fprintf(b, "/-- NewNetConnectionServerCommunicator registers `c.handleRequest` with dns.HandleFunc -/\n")
+	fmt.Fprintf(b, "/-- NewNetConnectionServerCommunicator registers `c.handleRequest` as the handler of \".\" -/\n")
 	fmt.Fprintf(b, "def c12HandlerRegistered : Bool := %v\n", reg)
+	fmt.Fprintf(b, "/-- … on a handler table of the server's own (`server.Handler = <that table>`, assigned before the server starts\n    to serve), not on the DNS library's process-wide default table, which every DNS endpoint of the process shares -/\n")
+	fmt.Fprintf(b, "def dnsHandlerOnOwnMux : Bool := %v\n", reg && regOn != "dns" && ownMux && assigned && beforeServe)
 }
